@@ -75,7 +75,10 @@ def main(argv=None):
         for rname, scope in spec['rules']:
             try:
                 results.append(props_view(run_rule(ctx, rname), scope, props))
-            except AnalysisError as e:
+            except Exception as e:   # noqa: a rule that crashes gives no verdict; the others still do
+                if not isinstance(e, AnalysisError):
+                    rule_errors.append((rname, 'internal error in the rule: %r' % (e,)))
+                    continue
                 # a breach of the call-graph assumptions invalidates every verdict; any other rule that cannot conclude
                 # leaves the verdicts of the rules that can untouched
                 if rname == 'R-STATIC-SHAPE':
